@@ -284,7 +284,7 @@ def run(R, tier, configs=("dflt",)):
     # boolean accepts is reported under this property too.
     if len(delegates) == 1:
         from . import c07
-        c07.run(c07.Renamed(R, "R08.4", "bool:delegate:"), tier, only=delegates)
+        c07.run(c07.Renamed(R, "R08.4", "bool:delegate:"), tier, only=delegates, project=lambda n: n != 0)
     else:
         R.violation("R08.4", "bool:delegate", "the boolean conversion does not hand numbers to exactly one integer conversion: %s" % sorted(delegates))
     casts = [st["rv"]["kind"] for m in b.all_mirs() for bi in m.live_blocks() for st in m.blocks[bi]["stmts"] if st["k"] == "assign" and st["rv"]["k"] == "cast" and st["rv"]["kind"] in ("FloatToInt", "FloatToFloat", "IntToInt")]
